@@ -7,6 +7,7 @@ import (
 	"os"
 	"path/filepath"
 	"strings"
+	"sync"
 	"sync/atomic"
 	"testing"
 	"testing/synctest"
@@ -293,7 +294,10 @@ func TestWorker(t *testing.T) {
 		t.Fatal(err)
 	}
 	w := bufio.NewWriter(f)
+	var emitMu sync.Mutex
 	emit := func(l outLine) {
+		emitMu.Lock()
+		defer emitMu.Unlock()
 		b, _ := json.Marshal(l)
 		w.Write(b)
 		w.WriteByte('\n')
@@ -314,7 +318,7 @@ func TestWorker(t *testing.T) {
 	}
 	defer os.RemoveAll(dir)
 
-	var curIdx, curSeed uint64
+	var curIdx, curSeed atomic.Uint64
 	var active atomic.Bool
 	go func() {
 		last := workerProgress.Load()
@@ -327,7 +331,7 @@ func TestWorker(t *testing.T) {
 				continue
 			}
 			if time.Since(lastChange) > 20*time.Second {
-				emit(outLine{T: "hang", I: curIdx, Seed: curSeed})
+				emit(outLine{T: "hang", I: curIdx.Load(), Seed: curSeed.Load()})
 				os.RemoveAll(dir)
 				os.Exit(3)
 			}
@@ -344,7 +348,8 @@ func TestWorker(t *testing.T) {
 		if err := json.Unmarshal(rb, &rf); err != nil {
 			t.Fatal(err)
 		}
-		curIdx, curSeed = rf.RunIndex, rf.RunSeed
+		curIdx.Store(rf.RunIndex)
+		curSeed.Store(rf.RunSeed)
 		emit(outLine{T: "start", I: rf.RunIndex, Seed: rf.RunSeed})
 		active.Store(true)
 		res, pj := run(t, rf.Profile, rf.Property, rf.RunSeed, rf.Plan, rf.Tape, job.Mode == "replay" && len(rf.Tape) > 0, dir)
@@ -388,7 +393,8 @@ func TestWorker(t *testing.T) {
 		}
 		seed := core.RunSeed(job.Seed, idx)
 		prof := job.Profiles[int(idx%uint64(len(job.Profiles)))]
-		curIdx, curSeed = idx, seed
+		curIdx.Store(idx)
+		curSeed.Store(seed)
 		emit(outLine{T: "start", I: idx, Seed: seed})
 		active.Store(true)
 		res, pj := run(t, prof, job.Prop, seed, nil, nil, false, dir)
